@@ -426,7 +426,9 @@ class MinMaxAggregator:
                 lits_without_vars.append(blit)
         # the literals that move into the chain rules have to be safe without the rest of the body
         while True:
+            # the chain rules also contain the element condition, the #inf/#sup rule does not
             unbound = collect_binding_information_body(list(chain(elem.condition, lits_with_vars)))[1]
+            unbound.update(collect_binding_information_body(lits_with_vars)[1])
             binders = [blit for blit in lits_without_vars if not unbound.isdisjoint(collect_ast(blit, "Variable"))]
             if not unbound or not binders:
                 break
